@@ -60,8 +60,8 @@ theorem mem_contrib {q : Name} {c : Comp} {e : Entry} (h : e ∈ contrib q c) :
         ∨ (∃ r ∈ b.writes, e = .write (q, b.name) (absr q r))
         ∨ (∃ r ∈ b.calls, e = .call (q, b.name) (absr q r)))
     ∨ (∃ x ∈ c.uu, e = .uu q (absr q x.1) (absr q x.2))
-    ∨ (∃ x ∈ c.rdu, e = .rdu q (absr q x.1) x.2.1 (q, x.2.2))
-    ∨ (∃ x ∈ c.wru, e = .wru q (absr q x.1) x.2.1 (q, x.2.2))
+    ∨ (∃ x ∈ c.rdu, e = .rdu q (absr q x.1) x.2.1 (absr q x.2.2))
+    ∨ (∃ x ∈ c.wru, e = .wru q (absr q x.1) x.2.1 (absr q x.2.2))
     ∨ (∃ x ∈ c.mcs, e = .mc q (absm q x.1) (absm q x.2.1) x.2.2)
     ∨ (∃ x ∈ c.conns, e = .edge (.sig (absr q x.1)) (.sig (absr q x.2))
         ∨ e = .edge (.sig (absr q x.2)) (.sig (absr q x.1)))
@@ -180,7 +180,7 @@ theorem contrib_outside {p q : Name} {c : Comp} {e : Entry} (hq : under p q = fa
 /-! ## only the parent's entries cross the boundary -/
 
 def LMRef.short : LMRef → Prop
-  | .blk _ => True
+  | .blk r => r.1.length ≤ 1
   | .meth r => r.1.length ≤ 1
 
 /-- the PyMTL discipline: a component refers to its own signals and to those of its direct children
@@ -190,8 +190,8 @@ structure Disciplined (c : Comp) : Prop where
   writes : ∀ b ∈ c.blks, ∀ r ∈ b.writes, r.1.length ≤ 1
   calls : ∀ b ∈ c.blks, ∀ r ∈ b.calls, r.1.length ≤ 1
   uu : ∀ x ∈ c.uu, x.1.1.length ≤ 1 ∧ x.2.1.length ≤ 1
-  rdu : ∀ x ∈ c.rdu, x.1.1.length ≤ 1
-  wru : ∀ x ∈ c.wru, x.1.1.length ≤ 1
+  rdu : ∀ x ∈ c.rdu, x.1.1.length ≤ 1 ∧ x.2.2.1.length ≤ 1
+  wru : ∀ x ∈ c.wru, x.1.1.length ≤ 1 ∧ x.2.2.1.length ≤ 1
   mcs : ∀ x ∈ c.mcs, x.1.short ∧ x.2.1.short
   conns : ∀ x ∈ c.conns, x.1.1.length ≤ 1 ∧ x.2.1.length ≤ 1
   consts : ∀ x ∈ c.consts, x.1.1.length ≤ 1
@@ -209,7 +209,7 @@ theorem parent_of_short {p q rh : Name} (hq : under p q = false) (hr : rh.length
 theorem parent_of_mref {p q : Name} {x : LMRef} (hq : under p q = false) (hs : x.short)
     (h : (absm q x).gone p = true) : ∃ a, p = q ++ [a] := by
   cases x with
-  | blk n => simp [absm, MRef.gone, hq] at h
+  | blk r => exact parent_of_short hq hs (by simpa [absm, MRef.gone, absr] using h)
   | meth r => exact parent_of_short hq hs (by simpa [absm, MRef.gone, absr] using h)
 
 /-- in a disciplined hierarchy every entry of a surviving component that mentions something under
@@ -234,8 +234,14 @@ theorem saved_from_parent {p q : Name} {c : Comp} {e : Entry} (hd : Disciplined 
     rcases ht with ht | ht
     · exact parent_of_short hq (hd.uu x hx).1 ht
     · exact parent_of_short hq (hd.uu x hx).2 ht
-  · exact parent_of_short hq (hd.rdu x hx) (by simpa [touches, hq, absr] using ht)
-  · exact parent_of_short hq (hd.wru x hx) (by simpa [touches, hq, absr] using ht)
+  · simp only [touches, hq, Bool.false_or, Bool.or_eq_true, absr] at ht
+    rcases ht with ht | ht
+    · exact parent_of_short hq (hd.rdu x hx).1 ht
+    · exact parent_of_short hq (hd.rdu x hx).2 ht
+  · simp only [touches, hq, Bool.false_or, Bool.or_eq_true, absr] at ht
+    rcases ht with ht | ht
+    · exact parent_of_short hq (hd.wru x hx).1 ht
+    · exact parent_of_short hq (hd.wru x hx).2 ht
   · simp only [touches, hq, Bool.false_or, Bool.or_eq_true] at ht
     rcases ht with ht | ht
     · exact parent_of_mref hq (hd.mcs x hx).1 ht
